@@ -137,6 +137,31 @@ func runC20(c *Ctx) error {
 			n := 28 + 4 + len(pkt)
 			h[24], h[25], h[26], h[27] = byte(n>>24), byte(n>>16), byte(n>>8), byte(n)
 			wire = append(append(h, 0, 0, byte((4+len(pkt))>>8), byte(4+len(pkt))), pkt...)
+		} else if i%9 == 4 {
+			// datagrams with payloads the library skips (unsupported, not critical) - next to supported ones or alone: the
+			// decoded message then has fewer payloads than the datagram, down to none, while the header was parsed from all of it
+			var items []chainItem
+			for _, p := range msx.At(2).List {
+				if p.Head() != "sk" && rng.Chance(1, 2) {
+					items = append(items, chainItem{sup: p})
+				}
+			}
+			if rng.Chance(1, 3) {
+				items = nil
+			}
+			for k := rng.Range(1, 3); k > 0; k-- {
+				it := chainItem{ty: rng.Pick([]int{1, 7, 32, 49, 53, 54, 128, 200, 255}), body: rng.Bytes(rng.Pick([]int{0, 1, 8, 40}))}
+				at := rng.Intn(len(items) + 1)
+				items = append(items[:at], append([]chainItem{it}, items[at:]...)...)
+			}
+			if first, chain, ok := buildChain(items, 0); ok {
+				h := make([]byte, 28)
+				copy(h, rng.Bytes(16))
+				h[16], h[17], h[18] = first, 0x20, 37
+				n := 28 + len(chain)
+				h[24], h[25], h[26], h[27] = byte(n>>24), byte(n>>16), byte(n>>8), byte(n)
+				wire = append(h, chain...)
+			}
 		} else if rng.Chance(1, 3) { // accepted mutations as well
 			w2 := mutate(rng, wire)
 			if okBody(implDecode(exact(w2))) != nil {
@@ -157,7 +182,9 @@ func runC20(c *Ctx) error {
 		}
 		r.ImplRuns++
 		before := sxPayloads(m.Payloads).String()
-		hdrB := sxHeader(m.IKEHeader).String()
+		// the encoding of the decoded message while the receive buffer still holds the datagram ...
+		d0, err0, crashed0 := encodeGuard(m)
+		hdrB := sxHeader(m.IKEHeader).String() // (after Encode: it recomputes the header's NextPayload bookkeeping)
 		if hits := aliasesOf(m.Payloads, buf[:cap(buf)]); len(hits) > 0 {
 			fail("a field of a decoded payload shares memory with the input buffer", cs, "no alias", fmt.Sprint(hits))
 		}
@@ -174,9 +201,16 @@ func runC20(c *Ctx) error {
 			r.Add(Finding{Kind: "correspondence", What: "decoded payloads differ from Impl.decode", Case: cs, Expected: mo, Observed: before})
 		}
 		// ---- the decoded message is encoded repeatedly: byte-identical, payloads untouched ----
-		if d1, err := m.Encode(); err == nil {
+		// ... and after the buffer was overwritten: the message owns its data, so its encoding is the same
+		if d1, err, crashed := encodeGuard(m); !crashed && !crashed0 && ((err == nil) != (err0 == nil) || !bytes.Equal(d0, d1)) {
+			fail("the encoding of a decoded message changes when the receive buffer is overwritten", cs, hx(d0), hx(d1))
+		}
+		if d1, err, crashed := encodeGuard(m); crashed {
+			r.Count("(note reencode-crash)", false, "note:encode-of-a-decoded-message-crashes (outside C20; C12 records it)")
+			continue
+		} else if err == nil {
 			for k := 0; k < 5; k++ {
-				dk, errk := m.Encode()
+				dk, errk, _ := encodeGuard(m)
 				if errk != nil || !bytes.Equal(dk, d1) {
 					fail("repeated encodings of a decoded message are not byte-identical", cs, hx(d1), hx(dk))
 					break
@@ -189,8 +223,8 @@ func runC20(c *Ctx) error {
 		// ---- encode: purity, determinism, fresh buffer ----
 		gm := goMsg(msx)
 		pb := sxPayloads(gm.Payloads).String()
-		e1, err1 := gm.Encode()
-		if err1 != nil {
+		e1, err1, crashed1 := encodeGuard(gm)
+		if err1 != nil || crashed1 {
 			continue
 		}
 		ecs := "(encode " + msx.String() + ")"
@@ -205,7 +239,7 @@ func runC20(c *Ctx) error {
 		if sxPayloads(gm.Payloads).String() != pb {
 			fail("writing to the buffer returned by Encode changes the message", ecs, pb, sxPayloads(gm.Payloads).String())
 		}
-		e2, err2 := gm.Encode()
+		e2, err2, _ := encodeGuard(gm)
 		if err2 != nil || !bytes.Equal(e2, keep) {
 			fail("repeated encodings are not byte-identical", ecs, hx(keep), hx(e2))
 		}
@@ -225,7 +259,7 @@ func runC20(c *Ctx) error {
 			callerView := pm.Payloads
 			h2 := *pm.IKEHeader
 			pm2 := &message.IKEMessage{IKEHeader: &h2, Payloads: callerView}
-			enc2a, err2a := pm2.Encode()
+			enc2a, err2a, _ := encodeGuard(pm2)
 			var wireP []byte
 			withScript(rng.Bytes(32), nil, func(*scriptReader) { wireP, err = ike.EncodeEncrypt(pm, sa, roleOf(k.role)) })
 			pcs := fmt.Sprintf("(protect %s %s)", k.role, msx)
@@ -239,7 +273,7 @@ func runC20(c *Ctx) error {
 						break
 					}
 				}
-				if enc2b, err2b := pm2.Encode(); (err2a == nil) != (err2b == nil) || !bytes.Equal(enc2a, enc2b) {
+				if enc2b, err2b, _ := encodeGuard(pm2); (err2a == nil) != (err2b == nil) || !bytes.Equal(enc2a, enc2b) {
 					fail("protecting a message changes the encoding of another message built from the same payload list", pcs, hx(enc2a), hx(enc2b))
 				}
 				h1 := *pm.IKEHeader
@@ -268,4 +302,16 @@ func runC20(c *Ctx) error {
 		}
 	}
 	return nil
+}
+
+// encodeGuard: Encode with a panic reported as a value (a crash of the encoder on a decoded message is C12's / C03's
+// business; this runner must survive it)
+func encodeGuard(m *message.IKEMessage) (b []byte, err error, crashed bool) {
+	defer func() {
+		if r := recover(); r != nil {
+			b, crashed = nil, true
+		}
+	}()
+	b, err = m.Encode()
+	return
 }
